@@ -220,6 +220,25 @@ def boundary_conventions(report, results, coverage):
                         r = getattr(v, acc)
                         if p[2] > 1e-250 and not r >= 0 or p[2] < -1e-250 and not r <= 0:
                             bad.append((acc + " sign", repr(v), r))
+        # exactly on the z axis (array backends: IEEE semantics instead of ZeroDivisionError): costheta = +-1, cottheta = +-inf, eta = +-inf with the sign of z,
+        # theta = 0 / pi - in Cartesian and in cylindrical storage alike
+        zs = numpy.array([5.0, -5.0, 1e-100, -1e100])       # squares stay representable: no overflow / underflow artefacts
+        on_axis = [("xy,z", vector.array({"x": numpy.zeros(4), "y": numpy.zeros(4), "z": zs})),
+                   ("rhophi,z", vector.array({"rho": numpy.zeros(4), "phi": numpy.full(4, 0.3), "z": zs})),
+                   ("xy,z,t", vector.array({"x": numpy.zeros(4), "y": numpy.zeros(4), "z": zs, "t": numpy.abs(zs) * 2})),
+                   ("rhophi,z,tau", vector.array({"rho": numpy.zeros(4), "phi": numpy.full(4, -0.4), "z": zs, "tau": numpy.ones(4)}))]
+        try:
+            import awkward as ak
+            on_axis += [("ak:" + nm, vector.Array(ak.Array({k: numpy.asarray(a[k]) for k in a.dtype.names}))) for nm, a in list(on_axis)]
+        except Exception:
+            pass
+        sgn = numpy.sign(zs)
+        for nm, a in on_axis:
+            for acc, want in (("costheta", sgn * 1.0), ("cottheta", sgn * numpy.inf), ("eta", sgn * numpy.inf), ("theta", numpy.where(sgn > 0, 0.0, math.pi))):
+                n += 1
+                got = numpy.asarray(getattr(a, acc), dtype=float)
+                if not numpy.array_equal(got, want):
+                    bad.append((f"{acc} on the z axis", nm, got.tolist(), want.tolist()))
         for tau in (0.0, 1.0, -1.0, -5.0, 1e-300, -1e150):
             for sp in ((0, 0, 0), (1, 0, 0), (0, 0, 3), (1e100, 1e100, 1e100)):
                 for make in (lambda: vector.obj(x=sp[0], y=sp[1], z=sp[2], tau=tau),
